@@ -85,6 +85,26 @@ FAMILIES["keyring"] = {
                     "the data race between GetKeys users and RemoveKey is a runtime notion; its logical effect (aliasing) is what is modelled"],
 }
 
+FAMILIES["wire"] = {
+    "name": "wire", "props": ["C11", "C12", "C13", "C14", "C15", "C16"], "models": "Wire.v, Label.v",
+    "harness": COMMON + ["zz_vf_wire_test.go"], "test": "TestVfWire",
+    "n": {"quick": 120, "thorough": 2500}, "no_shrink": True,
+    "env": {"VF_SHARD": "150"},
+    "codes": [(200, 209, ["C12"]), (210, 219, ["C15"]), (220, 229, ["C16"]), (230, 239, ["C14"]), (240, 249, ["C13"]), (250, 259, ["C11"])],
+    "code_names": {1: "undecodable case", 40: "bytes handed to the transport differ from the model's framing", 41: "messages handed to the handlers differ",
+                   42: "model rejected the packet", 43: "panic outcome differs",
+                   200: "C12: the receiver did not recover exactly the sender's message(s)",
+                   210: "C15: packet does not open under the primary key with the label as associated data", 211: "C15: message bytes visible in clear on the wire",
+                   220: "C16: a packet carrying another label (or a label header while the check is delegated) was acted on",
+                   230: "C14: tampered/foreign traffic was acted on with a plaintext different from the original",
+                   231: "C14: version byte of genuine ciphertext flipped: a different plaintext was accepted",
+                   240: "C13: packet path panicked",
+                   250: "C11: assembled packet larger than the configured packet size", 251: "C11: receiver did not unpack exactly the piggy-backed messages"},
+    "assumptions": ["AES-GCM open/seal results and LZW (de)compression enter the model as tables computed with the Go standard library / the package helpers for the bytes of each case",
+                    "msgpack bodies are opaque bytes on the packet path",
+                    "inline handlers (ping, indirect ping, ack, nack) are observed through their effects (reply sent, handler invoked), not their bodies"],
+}
+
 # a property may be served by several families (run in order); the first is its primary one
 PROPS = {}
 for f, d in sorted(FAMILIES.items(), key=lambda kv: 0 if kv[0] in ("susp", "queue") else 1):
